@@ -953,6 +953,76 @@ claim(
     "DESIGN.md §5.1 C09",
 )
 
+claim(
+    "C27",
+    "dispenso::pipeline is modelled as an interleaving system (Model/Pipeline.lean): one step per access to shared state "
+    "(resources_/outstanding_ and the local queue of every LimitGatedScheduler, the generator/transform/sink pipes, the "
+    "wait() drain loops, ConcurrentTaskSet's count/guard/canceled words, the pool queue, the generator's completion event) "
+    "and per begin/end of a user stage function; every thread is a stack of frames (inline execution by the task set, "
+    "serial hand-off, tryExecuteNext inside wait loops), exceptions unwind frame by frame. Proved for every configuration "
+    "(stages, limits, filters, pool size, generator instances) and every interleaving (Reach): C27_never_twice (no item "
+    "enters a stage function twice, in any reachable state), C27_drained (when pipeline() has returned and no stage threw: "
+    "no generator or stage closure exists on any thread, none is queued in the pool, every local queue is empty, "
+    "outstanding_ is 0 and nothing is pending), C27_exactly_once (then every generated item entered stage s exactly once "
+    "iff every earlier stage forwarded it, never otherwise, and stage s+1 was handed the item exactly when stage s "
+    "forwarded it). The proofs are sum invariants over all stacks (tools/gen_pipe_proofs.py generates the per-step lemmas, "
+    "the kernel checks them) plus the induction Proofs/PipeCalm.lean. Tie: real pipelines (1-4 stages, limits 1..3 / "
+    "unlimited / plain functions, OpResult and std::optional filters, pools 0..3, poolLoadMultiplier 32 and 1, 0..12 items) "
+    "run under the deterministic scheduler; every atomic operation on the named words and every stage begin/end note must "
+    "be the pending step of that thread in the model with the same values (Driver/Plug/Pipeline.lean inserts the silent "
+    "queue steps and reads their outcome off the thread's next event; acceptance is Pipe.step = some _ for every label). "
+    "Oracle: per-(item,stage) counts, the value each stage received, no activity after return.",
+    "Trusted: Lean kernel; dsched; the white-box replica of pipeline()'s four statements in the harness (a source check "
+    "fails the tie if pipeline.h changes; 1/6 of the runs call the real function, oracle only). Abstractions, all "
+    "over-approximations: the task set's inline-or-queue decision is nondeterministic (load figures not modelled, inline "
+    "depth unbounded); moodycamel queues and the pool are bags with spurious try_dequeue failure; closures in queues are "
+    "anonymous and the item is bound when the stage function begins (the closure's identity is unobservable before); the "
+    "pool's wake/sleep machinery is not modelled; 'receives its predecessor's output' is modelled as identity of the item "
+    "token (the value itself is checked by the oracle only). Single-stage pipelines are exercised by the oracle, not "
+    "modelled. The model cannot exhibit: weak-memory effects (SC), a pool that loses tasks, stack exhaustion.",
+    "Lean 4 proof (interleaving invariants over all stacks, generated case analysis) + trace validation under a deterministic scheduler",
+    "DESIGN.md §5.4 C27",
+)
+
+claim(
+    "C28",
+    "On the pipeline model of C27, for every configuration and every interleaving, also while stages throw and for every "
+    "combination of repaired/original exception paths: C28_stage_limit (a stage with limit L - stage(f, L) or a plain "
+    "function, L = 1 - never has more than L invocations of its stage function in progress; proof: resources_ + slots "
+    "held + borrowed = L, resources_ + borrowed >= 0, every running invocation holds a real slot, a limited stage has no "
+    "closure of the unlimited kind) and C28_generator_limit (at most max(1, min(pool threads, limit)) generator instances "
+    "are inside the generator function). The trace acceptor checks every resources_ value the real code observed against "
+    "the model; the oracle computes the per-stage maximum of concurrently running invocations from the begin/end notes.",
+    "Trusted: as C27. The limit is on invocations between the model's begin and end steps of the stage function, which the "
+    "harness emits as the first and last statement of its stage functors. Slots of closures that a canceled set drops are "
+    "never returned (lost); this only lowers the concurrency.",
+    "Lean 4 proof (slot-accounting invariants) + trace validation under a deterministic scheduler",
+    "DESIGN.md §5.4 C28",
+)
+
+claim(
+    "C29",
+    "On the pipeline model of C27 with the exception machinery (trySetCurrentException as CAS/store/store, packageTask's "
+    "skip branch, schedule()'s drop when canceled, wait()'s discard paths, the destructors of pipes and task set), proved "
+    "for every reachable state: C29_never_twice, C29_run_or_released_once (every stage closure is entered or released, "
+    "never both, at most once), C29_generator_stops (an instance that reads hasException() = true ends without another "
+    "call), C29_no_forgotten_closure (with the repaired skip branch no OnceFunction is dropped unreleased), and "
+    "C29_first_exception_partial (a losing CAS changes nothing, the winner stores its own exception, wait() rethrows the "
+    "stored one). NOT proved: that the rethrown exception is the first CAS of the run, and that at the moment pipeline() "
+    "returns after an exception every queue is empty and every item released - these are checked on the real code only "
+    "(oracle: item ledger constructed == destroyed after the pool is gone, first exception rethrown, no stage activity "
+    "once execute()/wait() are over, pool usable, no hang; and every trace must be accepted by the repaired model). Four "
+    "genuine defects were found; the model keeps each original behaviour behind a flag with a proved witness run: "
+    "C29_old_skipped_closure_leaks, C29_old_queue_left_behind, C29_old_skipped_generator_hangs, "
+    "C29_old_exception_escapes_execute. A trace that only a model variant with an original behaviour accepts is reported "
+    "as a violation naming that behaviour.",
+    "Trusted: as C27; LeakSanitizer is not available under dsched, the ledger counts the harness's item objects (every "
+    "closure the pipeline creates holds exactly one). Partial by statement: see the NOT proved list; the four defects are "
+    "repaired by the patches in deliver/ (the check fails on the unrepaired tree).",
+    "Lean 4 proof (interleaving invariants, witness runs by kernel evaluation) + trace validation under a deterministic scheduler",
+    "DESIGN.md §5.4 C29",
+)
+
 ALL = ["C%02d" % i for i in range(1, 49)]
 for _p in ALL:
     if _p not in CLAIMED:
